@@ -216,6 +216,16 @@ def render_paths(N, nodes, limit: int = 512, for_zero: bool = False, subst=None,
             r = subst(e)
             if r is not None:
                 return r, None
+        # a printed variable that is bound (on this path) to a pure expression is keyed by that expression: what a helper macro
+        # prints for its parameter `capacity` is keyed `t.capacity`, as if the text had been written in the caller
+        hops = 0
+        while p is not None and isinstance(e, N.Name) and hops < 4:
+            b = p.binding(e.name)
+            if b is None or _is_unique_name(N, b) or (isinstance(b, N.Name) and b.name == e.name) or \
+                    any(isinstance(x, N.Call) and not j2front._pure_method_call(N, x) for x in [b] + list(b.find_all(N.Call))):
+                break
+            e = b
+            hops += 1
         with j2front.xs_with(_sub_of(N, p) if p is not None else None):
             key = xs(e)
         if key in names:  # the same expression gets the same identifier everywhere
